@@ -6,6 +6,13 @@
  * Stubs: the kernel's sockets (sim/vkernel.c), peers, clock, allocator policy.
  */
 #define _GNU_SOURCE
+#include <sys/mman.h>
+#ifndef MAP_ANONYMOUS
+#define MAP_ANONYMOUS 0x20
+#endif
+#ifndef MAP_NORESERVE
+#define MAP_NORESERVE 0x4000
+#endif
 #include <sys/time.h>
 #include <sys/socket.h>
 
@@ -19,11 +26,13 @@
 #include "events.h"
 #include "netbuf.h"
 #include "network.h"
+#include "network_ssl.h"
 #include "sock.h"
 
 #include "sim.h"
 #include "simalloc.h"
 #include "vkernel.h"
+#include "tls_stub.h"
 
 const char * engine_name = "netio";
 const char * const engine_props[] = { "C06", "C07", "C14", NULL };
@@ -35,7 +44,7 @@ enum {
 	N_NBR_CANCEL_INFLIGHT, N_NBW_WRITE, N_NBW_BYTES, N_NBW_FAILCB, N_NBW_QUEUED_BEHIND, N_NBW_ZERO, N_NBW_FREE_INFLIGHT,
 	N_F_RECV_SHORT, N_F_RECV_EAGAIN, N_F_RECV_EINTR, N_F_RECV_ERR, N_F_SEND_SHORT, N_F_SEND_EAGAIN, N_F_SEND_EINTR,
 	N_F_SEND_ERR, N_F_POLL_EINTR, N_F_POLL_SPUR, N_F_ACCEPT_SOFT, N_F_ALLOC, N_POLLS, N_BLOCKS, N_RUNS, N_REG_FAIL,
-	N_RW_BOTH, N_OVERLAP, N_MANY, N_BINDFAIL, N_FREE_IN_CB
+	N_RW_BOTH, N_OVERLAP, N_MANY, N_BINDFAIL, N_FREE_IN_CB, N_NBR_CONSUME_WAITING, N_NBR_HUGE_REFUSED, N_TLS, N_BULK
 };
 const char * const engine_counters[] = {
 	"read_requests", "read_completed", "read_eof", "read_error", "write_requests", "write_completed", "write_error",
@@ -49,7 +58,8 @@ const char * const engine_counters[] = {
 	"fault_recv_short", "fault_recv_eagain", "fault_recv_eintr", "fault_recv_hard_error", "fault_send_short",
 	"fault_send_eagain", "fault_send_eintr", "fault_send_hard_error", "fault_poll_eintr", "fault_poll_spurious",
 	"fault_accept_soft_error", "fault_alloc_failed", "polls", "poll_blocked", "events_run_calls", "probe_request_failed_alloc",
-	"probe_read_and_write_outstanding", "probe_overlapping_request_refused", "probe_more_than_16_requests_outstanding", "fault_bind_failed", "probe_object_freed_inside_its_callback", NULL
+	"probe_read_and_write_outstanding", "probe_overlapping_request_refused", "probe_more_than_16_requests_outstanding", "fault_bind_failed", "probe_object_freed_inside_its_callback",
+	"probe_reader_consume_while_waiting", "probe_reader_unbufferable_wait_refused", "probe_netbuf_over_tls_stub", "probe_write_over_2GiB", NULL
 };
 
 #define AF_SINCE(before) (simalloc_failed != (before))
@@ -66,6 +76,7 @@ struct req {
 	int eof_at_start, err_at_start;
 	int af_at_start;
 	uint64_t nrecv_at_start;
+	int bulk;		/* buffer too large to compare byte by byte (an untouched mapping) */
 };
 #define MAXREQ 512
 static struct req reqs[MAXREQ + 1];
@@ -78,6 +89,7 @@ struct nbr {
 	size_t consumed;	/* stream offset of the first unconsumed byte (model) */
 	size_t seen_end;	/* stream offset of the end of the window at the last successful look */
 	size_t consume_j;
+	size_t consumed_in_wait;	/* bytes consumed since the outstanding wait was issued */
 	int chain_n;
 	size_t chain_k;
 	int finished;		/* EOF or error was reported: stream equality no longer asserted */
@@ -114,6 +126,8 @@ struct sockst {
 	void * acc_cookie;
 	int acc_live, acc_ncb, acc_last_fd, acc_af, acc_rearm;
 	uint64_t rxseed;
+	struct network_ssl_ctx * tls;
+	int no_more_writes;	/* a bulk write was issued: the byte log of this socket is no longer complete */
 };
 static struct sockst ss[MAXS];
 static int nss;
@@ -232,7 +246,7 @@ issue_write(int si, size_t buflen, size_t min, int chain_n, size_t cb, size_t cm
 	size_t i;
 	int f0, attempt;
 
-	if (S->vs == NULL || S->kind != 0 || S->nbw.W != NULL || nreq >= MAXREQ)
+	if (S->vs == NULL || S->kind != 0 || S->nbw.W != NULL || S->no_more_writes || nreq >= MAXREQ)
 		return;
 	if (buflen < 1)
 		buflen = 1;
@@ -291,6 +305,60 @@ issue_write(int si, size_t buflen, size_t min, int chain_n, size_t cb, size_t cm
 	if (S->rd != NULL)
 		R->cnt[N_RW_BOTH]++;
 	TR(0x12, si, buflen * 65536 + min, "network_write(sock %d, buflen=%zu, min=%zu) id=%d%s", si, buflen, min, q->id, in_cb ? " [from callback]" : "");
+}
+
+/*
+ * A write larger than 2 GiB: the buffer is an untouched anonymous mapping (all zero pages, no memory used), the
+ * simulated kernel accounts for the bytes by address instead of logging them.
+ */
+static void
+issue_bulk_write(int si, int sizeclass, int minmode)
+{
+	static const size_t sizes[] = { 0x7fffffffULL, 0x80000000ULL, 0x80000005ULL, 0xc0000000ULL, 0xffffffffULL, 0x100000007ULL, 0x180000000ULL };
+	struct sockst * S = &ss[si];
+	struct req * q;
+	size_t buflen = sizes[sizeclass % 7], min;
+	int f0;
+
+	if (S->vs == NULL || S->kind != 0 || S->nbw.W != NULL || S->wr != NULL || S->no_more_writes || nreq >= MAXREQ)
+		return;
+	min = minmode == 0 ? buflen : minmode == 1 ? buflen / 2 + 1 : 1;
+	q = &reqs[nreq];
+	memset(q, 0, sizeof(*q));
+	q->buf = mmap(NULL, buflen, PROT_READ, MAP_PRIVATE | MAP_ANONYMOUS | MAP_NORESERVE, -1, 0);
+	if (q->buf == MAP_FAILED)
+		return;		/* (address space exhausted: nothing to test) */
+	q->id = nreq++;
+	q->sock = si;
+	q->dir = 1;
+	q->bulk = 1;
+	q->buflen = buflen;
+	q->min = min;
+	q->start_off = S->vs->txlen;
+	S->vs->send_err_seen = 0;
+	S->vs->bulk_base = q->buf;
+	S->vs->bulk_len = buflen;
+	S->vs->bulk_sent = 0;
+	S->vs->bulk_misordered = 0;
+	S->vs->txwin = SIZE_MAX / 2;
+	S->no_more_writes = 1;
+	f0 = simalloc_failed;
+	q->af_at_start = simalloc_failed;
+	LIB_ENTER();
+	q->cookie = network_write(S->vs->fd, q->buf, buflen, min, wr_callback, q);
+	LIB_LEAVE();
+	if (q->cookie == NULL) {
+		if (!AF_SINCE(f0))
+			sim_viol("C06.wr.err", "write-null", "network_write returned NULL without an allocation failure");
+		S->vs->bulk_len = 0;
+		munmap(q->buf, buflen);
+		return;
+	}
+	q->live = 1;
+	S->wr = q;
+	R->cnt[N_WR_REQ]++;
+	R->cnt[N_BULK]++;
+	TR(0x1A, si, minmode, "network_write(sock %d, buflen=%zu, min=%zu) id=%d [bulk]", si, buflen, min, q->id);
 }
 
 static int
@@ -367,7 +435,10 @@ wr_callback(void * cookie, ssize_t n)
 			sim_viol("C06.wr.range", "range", "write id=%d reported %zd bytes, outside [%zu, %zu]", q->id, n, q->min, q->buflen);
 		if (S->vs->txlen != q->start_off + (size_t)n)
 			sim_viol("C06.wr.bytes", "count", "write id=%d reported %zd bytes but the kernel accepted %zu since the request started", q->id, n, S->vs->txlen - q->start_off);
-		if (memcmp(S->vs->tx + q->start_off, q->buf, (size_t)n) != 0)
+		if (q->bulk) {
+			if (S->vs->bulk_misordered)
+				sim_viol("C06.wr.bytes", "bulk-order", "write id=%d: the kernel was handed bytes out of order (or beyond the buffer)", q->id);
+		} else if (memcmp(S->vs->tx + q->start_off, q->buf, (size_t)n) != 0)
 			sim_viol("C06.wr.bytes", "bytes", "write id=%d: the bytes the kernel accepted differ from the first %zd bytes of the buffer", q->id, n);
 	} else if (n == -1) {
 		R->cnt[N_WR_ERR]++;
@@ -826,6 +897,19 @@ cancel_connect(void)
 
 /* ---------- netbuf reader ---------- */
 static int nbr_callback(void *, int);
+static int use_tls;	/* reader/writer run over the ssl branches of netbuf (null-cipher TLS stand-in) */
+
+static struct network_ssl_ctx *
+sock_tls(struct sockst * S)
+{
+
+	if (S->tls == NULL) {
+		S->tls = network_ssl_open(S->vs->fd, "peer.example.org");
+		if (S->tls != NULL)
+			R->cnt[N_TLS]++;
+	}
+	return (S->tls);
+}
 
 static void
 nbr_look(struct sockst * S, int after_cb, size_t need)
@@ -885,7 +969,7 @@ nbr_look(struct sockst * S, int after_cb, size_t need)
 }
 
 static void
-nbr_consume(struct sockst * S, size_t j)
+nbr_consume(struct sockst * S, size_t j, int all)
 {
 	struct nbr * N = &S->nbr;
 	uint8_t * data;
@@ -896,11 +980,16 @@ nbr_consume(struct sockst * S, size_t j)
 	LIB_LEAVE();
 	if (len == 0)
 		return;
-	j = j % (len + 1);
+	j = all ? len : j % (len + 1);
 	LIB_ENTER();
 	netbuf_read_consume(N->R, j);
 	LIB_LEAVE();
 	N->consumed += j;
+	if (N->waiting) {
+		/* consuming while a wait is outstanding: the wait was for k bytes counted from where the window started then */
+		N->consumed_in_wait += j;
+		R->cnt[N_NBR_CONSUME_WAITING]++;
+	}
 	TR(0x22, j, N->consumed, "consume %zu (stream offset now %zu)", j, N->consumed);
 }
 
@@ -929,6 +1018,7 @@ nbr_wait(struct sockst * S, size_t k, size_t consume_j, int chain_n, size_t chai
 		N->chain_n = chain_n;
 		N->chain_k = chain_k;
 		N->waiting = 1;
+		N->consumed_in_wait = 0;
 		N->ncb_for_wait = 0;
 		LIB_ENTER();
 		rc = netbuf_read_wait(N->R, k, nbr_callback, S);
@@ -936,6 +1026,12 @@ nbr_wait(struct sockst * S, size_t k, size_t consume_j, int chain_n, size_t chai
 		if (rc == 0)
 			break;
 		N->waiting = 0;
+		if (k > ((size_t)1 << 40)) {
+			/* more than any machine can buffer: refusing the wait is the only honest answer */
+			R->cnt[N_NBR_HUGE_REFUSED]++;
+			TR(0x2E, 0, 0, "netbuf_read_wait(%zu) -> -1 (cannot buffer that much)", k);
+			return;
+		}
 		if (!AF_SINCE(f0))
 			sim_viol("C07.rd.status", "wait-fail", "netbuf_read_wait failed without an allocation failure");
 		R->cnt[N_REG_FAIL]++;
@@ -963,7 +1059,7 @@ nbr_callback(void * cookie, int status)
 	sim_trh(0xC5, (uint64_t)status, N->k);
 	if (status == 0) {
 		R->cnt[N_NBR_OK]++;
-		nbr_look(S, 1, N->k);
+		nbr_look(S, 1, N->k > N->consumed_in_wait ? N->k - N->consumed_in_wait : 0);
 	} else if (status == 1) {
 		R->cnt[N_NBR_EOF]++;
 		if (!S->vs->recv_eof_seen && !N->finished)
@@ -992,7 +1088,7 @@ nbr_callback(void * cookie, int status)
 	if (status == 0) {
 		in_cb = 1;
 		if (N->consume_j > 0)
-			nbr_consume(S, N->consume_j);
+			nbr_consume(S, N->consume_j, 0);
 		if (N->chain_n > 0) {
 			R->cnt[N_CHAIN]++;
 			nbr_wait(S, N->chain_k, N->consume_j, N->chain_n - 1, N->chain_k);
@@ -1271,6 +1367,13 @@ release_all(void)
 			LIB_LEAVE();
 			S->nbw.W = NULL;
 		}
+		if (S->tls != NULL) {
+			/* reader and writer are gone: nothing may be outstanding on the TLS context any more */
+			LIB_ENTER();
+			network_ssl_close(S->tls);
+			LIB_LEAVE();
+			S->tls = NULL;
+		}
 	}
 	if (CN.active && !CN.done && !CN.cancelled) {
 		if (simalloc_is_live(CN.cookie))
@@ -1455,6 +1558,8 @@ engine_gen(struct plan * P, uint64_t seed, struct prng * g)
 	ps = faulty && prng_chance(g, 70) ? (int)prng_n(g, 40) : 0;
 	perr = faulty && prng_chance(g, 25) ? 1 + (int)prng_n(g, 4) : 0;
 	plan_add(P, "knob", "scenario", 1, (int64_t)scenario);
+	if (scenario >= 5 && scenario <= 9)
+		plan_add(P, "knob", "tls", 1, (int64_t)prng_chance(g, 25));
 	plan_add(P, "knob", "fd_base", 1, (int64_t)(prng_chance(g, 20) ? 3 + prng_n(g, 200) : prng_chance(g, 15) ? 0 : 3));
 	plan_add(P, "knob", "tick_ns", 1, prng_chance(g, 25) ? (int64_t)prng_n(g, 3000) : (int64_t)0);
 	plan_add(P, "knob", "fill", 1, (int64_t)(prng_chance(g, 50) ? 256 : (prng_chance(g, 50) ? 0xff : 0)));
@@ -1505,6 +1610,8 @@ engine_gen(struct plan * P, uint64_t seed, struct prng * g)
 				    (int64_t)(1 + prng_n(g, 5000)), (int64_t)prng_n(g, 3));
 			} else if (x < 63)
 				plan_add(P, "step", "cancel", 2, (int64_t)si, (int64_t)prng_n(g, 2));
+			else if (x < 64)
+				plan_add(P, "step", "wr_bulk", 3, (int64_t)si, (int64_t)prng_n(g, 7), (int64_t)prng_n(g, 3));
 			else if (x < 68)
 				plan_add(P, "step", "work", 1, (int64_t)prng_n(g, 5000));
 			else {
@@ -1628,12 +1735,13 @@ engine_gen(struct plan * P, uint64_t seed, struct prng * g)
 				size_t k = prng_chance(g, 50) ? sizes_k[prng_n(g, sizeof(sizes_k) / sizeof(sizes_k[0]))] : prng_n(g, 6000);
 				size_t ck = prng_chance(g, 50) ? sizes_k[prng_n(g, 12)] : prng_n(g, 6000);
 
-				plan_add(P, "step", "nbr_wait", 6, (int64_t)0, (int64_t)k, (int64_t)(prng_chance(g, 60) ? prng_n(g, 9000) : 0),
-				    (int64_t)(prng_chance(g, 40) ? 1 + prng_n(g, 4) : 0), (int64_t)ck, (int64_t)prng_chance(g, 4));
+				plan_add(P, "step", "nbr_wait", 7, (int64_t)0, (int64_t)k, (int64_t)(prng_chance(g, 60) ? prng_n(g, 9000) : 0),
+				    (int64_t)(prng_chance(g, 40) ? 1 + prng_n(g, 4) : 0), (int64_t)ck, (int64_t)prng_chance(g, 4),
+				    (int64_t)(prng_chance(g, 4) ? 1 + prng_n(g, 3) : 0));
 			} else if (x < 45)
 				plan_add(P, "step", "nbr_peek", 1, (int64_t)0);
 			else if (x < 60)
-				plan_add(P, "step", "nbr_consume", 2, (int64_t)0, (int64_t)prng_n(g, 10000));
+				plan_add(P, "step", "nbr_consume", 3, (int64_t)0, (int64_t)prng_n(g, 10000), (int64_t)prng_chance(g, 30));
 			else if (x < 67)
 				plan_add(P, "step", "nbr_cancel", 1, (int64_t)0);
 			else if (x < 71)
@@ -1770,6 +1878,8 @@ engine_run(const struct plan * P)
 {
 	int i, step = 0;
 
+	use_tls = (int)plan_knob(P, "tls", 0) == 1;
+	tls_stub_oracle = "C07.tls-contract";
 	snprintf(R->crash_prop, sizeof(R->crash_prop), "%s", (plan_knob(P, "scenario", 0) >= 5 && plan_knob(P, "scenario", 0) <= 9) ? "C07" : "C06");
 	vk_fd_base = (int)plan_knob(P, "fd_base", 3);
 	if (vk_fd_base < 0)
@@ -1820,6 +1930,8 @@ engine_run(const struct plan * P)
 			issue_read(si, arg(l, 1, 1 << 20), arg(l, 2, 1 << 20), (int)arg(l, 3, 8), arg(l, 4, 1 << 20) ? arg(l, 4, 1 << 20) : 1, arg(l, 5, 1 << 20));
 		} else if (!strcmp(l->name, "wr")) {
 			issue_write(si, arg(l, 1, 1 << 20), arg(l, 2, 1 << 20), (int)arg(l, 3, 8), arg(l, 4, 1 << 20) ? arg(l, 4, 1 << 20) : 1, arg(l, 5, 1 << 20));
+		} else if (!strcmp(l->name, "wr_bulk")) {
+			issue_bulk_write(si, (int)arg(l, 1, 6), (int)arg(l, 2, 2));
 		} else if (!strcmp(l->name, "cancel")) {
 			cancel_req(si, (int)arg(l, 1, 1));
 		} else if (!strcmp(l->name, "accept")) {
@@ -1839,7 +1951,10 @@ engine_run(const struct plan * P)
 				int f0 = simalloc_failed;
 
 				LIB_ENTER();
-				ss[si].nbr.R = netbuf_read_init(ss[si].vs->fd);
+				if (use_tls)
+					ss[si].nbr.R = sock_tls(&ss[si]) ? netbuf_ssl_read_init(ss[si].tls) : NULL;
+				else
+					ss[si].nbr.R = netbuf_read_init(ss[si].vs->fd);
 				LIB_LEAVE();
 				if (ss[si].nbr.R == NULL && !AF_SINCE(f0))
 					sim_viol("C07.rd.status", "init-null", "netbuf_read_init failed without an allocation failure");
@@ -1848,13 +1963,24 @@ engine_run(const struct plan * P)
 		} else if (!strcmp(l->name, "nbr_wait")) {
 			if (ss[si].nbr.R != NULL && !ss[si].nbr.waiting)
 				ss[si].nbr.free_in_cb = (int)arg(l, 5, 1);
-			nbr_wait(&ss[si], arg(l, 1, 400000), arg(l, 2, 1 << 20), (int)arg(l, 3, 8), arg(l, 4, 400000));
+			{
+				size_t k = arg(l, 1, 400000);
+
+				/* wait lengths no buffer can hold: at the top of the size_t range, and around its middle */
+				if (arg(l, 6, 3) == 1)
+					k = SIZE_MAX - k;
+				else if (arg(l, 6, 3) == 2)
+					k = SIZE_MAX / 2 + 1 + k;
+				else if (arg(l, 6, 3) == 3)
+					k = SIZE_MAX / 2 - k;
+				nbr_wait(&ss[si], k, arg(l, 2, 1 << 20), (int)arg(l, 3, 8), arg(l, 4, 400000));
+			}
 		} else if (!strcmp(l->name, "nbr_peek")) {
 			if (ss[si].nbr.R != NULL && !ss[si].nbr.waiting)
 				nbr_look(&ss[si], 0, 0);
 		} else if (!strcmp(l->name, "nbr_consume")) {
-			if (ss[si].nbr.R != NULL && !ss[si].nbr.waiting)
-				nbr_consume(&ss[si], arg(l, 1, 1 << 20));
+			if (ss[si].nbr.R != NULL && !ss[si].nbr.finished)
+				nbr_consume(&ss[si], arg(l, 1, 1 << 20), (int)arg(l, 2, 1));
 		} else if (!strcmp(l->name, "nbr_cancel")) {
 			nbr_cancel(&ss[si]);
 		} else if (!strcmp(l->name, "nbw_init")) {
@@ -1863,7 +1989,10 @@ engine_run(const struct plan * P)
 
 				ss[si].vs->send_err_seen = 0;
 				LIB_ENTER();
-				ss[si].nbw.W = netbuf_write_init(ss[si].vs->fd, nbw_fail, &ss[si]);
+				if (use_tls)
+					ss[si].nbw.W = sock_tls(&ss[si]) ? netbuf_ssl_write_init(ss[si].tls, nbw_fail, &ss[si]) : NULL;
+				else
+					ss[si].nbw.W = netbuf_write_init(ss[si].vs->fd, nbw_fail, &ss[si]);
 				LIB_LEAVE();
 				ss[si].nbw.free_in_failcb = (int)arg(l, 1, 1);
 				if (ss[si].nbw.W == NULL && !AF_SINCE(f0))
